@@ -57,6 +57,7 @@ type funcContract struct {
 	holds         []holdSpec
 	readsUnlocked map[string]string
 	setupOnly     string
+	assumeAllCalleeReq bool
 	sweep         bool // synthetic contract of the lock-discipline sweep
 	ghostAt      []ghostUpdate
 	panicsOK     bool
@@ -423,6 +424,10 @@ func (cs *contractSet) loadFile(path, pkgPath string) error {
 				cur.tier = rest
 			case "alloc_bound":
 				cur.allocBound = rest
+			case "callee_requires_assumed":
+				// the preconditions of every callee under contract are data invariants this function does not
+				// track: assumed at each call and listed in the evidence (the function's own obligations stand)
+				cur.assumeAllCalleeReq = true
 			case "setup_only":
 				// setup_only <reason>: configuration method, called only before the object is shared with other
 				// goroutines (an assumption about the callers, listed in the evidence): no lock obligations
